@@ -156,6 +156,7 @@ json_character(EscapeChar) -->
         json_hex(H4),
         { (   nonvar(H1) ->
               EscapeCharCode is H1 * 16^3 + H2 * 16^2 + H3 * 16 + H4,
+              (   EscapeCharCode < 0xD800 -> true ; EscapeCharCode > 0xDFFF ),
               char_code(EscapeChar, EscapeCharCode)
           ;   char_code(EscapeChar, EscapeCharCode),
               H1 is (EscapeCharCode // 16^3) mod 16,
@@ -163,6 +164,28 @@ json_character(EscapeChar) -->
               H3 is (EscapeCharCode // 16^1) mod 16,
               H4 is (EscapeCharCode // 16^0) mod 16
           ) }.
+/*  A \uXXXX escape is a UTF-16 code unit: a character outside the Basic Multilingual Plane is escaped
+    as a high surrogate (D800-DBFF) followed by a low surrogate (DC00-DFFF), see RFC 8259 section 7.
+    A surrogate that is not part of such a pair is not a character. */
+json_character(Char) -->
+        "\\u",
+        json_hex(H1),
+        json_hex(H2),
+        json_hex(H3),
+        json_hex(H4),
+        { High is H1 * 16^3 + H2 * 16^2 + H3 * 16 + H4,
+          High >= 0xD800,
+          High =< 0xDBFF },
+        "\\u",
+        json_hex(L1),
+        json_hex(L2),
+        json_hex(L3),
+        json_hex(L4),
+        { Low is L1 * 16^3 + L2 * 16^2 + L3 * 16 + L4,
+          Low >= 0xDC00,
+          Low =< 0xDFFF,
+          CharCode is 0x10000 + (High - 0xD800) * 0x400 + Low - 0xDC00,
+          char_code(Char, CharCode) }.
 
 json_hex(Digit) --> json_digit(Digit).
 json_hex(10)    --> "a".
